@@ -93,6 +93,8 @@ def wikis(draw):
         if len(revs) > 1 and draw(st.booleans()):
             items.append([t, revs[0][0]])
             pinned.add(t)
+            if draw(st.integers(0, 2)) == 0:
+                items.append([t, None])  # the same article once more, at its current revision (two chapters of one book)
         else:
             items.append([t, None])
     for i in range(draw(st.integers(0, 2))):
@@ -247,6 +249,8 @@ def run_case(ctx, case):
                 who = p["redirect"]
             elif rev is not None:
                 labels.add("pinned-revision")
+                if [title, None] in case["items"]:
+                    labels.add("pinned-and-current-of-one-article")
                 want = model.expand(model.text_of(title, rev))
                 who = title
             else:
